@@ -116,6 +116,7 @@ type Config struct {
 	MaxSteps       int64
 	Horizon        time.Duration
 	Trace          bool
+	ChanCap        int // > 0: capacity given to the library's large hard-coded channels (see ChanCap)
 }
 
 // Failure is an oracle verdict recorded during a run.
@@ -1049,6 +1050,14 @@ func (s *Sim) Procs() []*Proc { return s.procs }
 
 // FnTable is generated by the instrumenter (function names of the package under test).
 var FnTable []string
+
+// ChanCap is what the instrumenter puts in place of a hard-coded channel capacity >= 64.
+func ChanCap(n int) int {
+	if s := S; s != nil && s.cfg.ChanCap > 0 {
+		return s.cfg.ChanCap
+	}
+	return n
+}
 
 // FnHit marks the library functions entered by any run of this process (reach measure reported in the evidence).
 // Package code only runs under the scheduler's token, so plain stores suffice.
